@@ -32,7 +32,7 @@ import sys
 assert sys.version_info >= (3, 0)  # Bomb out if not running Python3
 
 
-import operator, time, traceback, uuid, fnmatch, opentracing
+import operator, re, time, traceback, uuid, fnmatch, opentracing
 
 from datetime import datetime, timezone, timedelta
 from aioprometheus import Counter, Histogram
@@ -2234,11 +2234,14 @@ class StateEngine(object):
                     return next_if(variable, operator.le, value, str)
 
                 def asl_choice_StringMatches(value):
-                    # https://docs.python.org/3/library/fnmatch.html
-                    # Change the \ escape to fnmatch [seq] escape and also
-                    # escape [ to allow things like a literal [hello]
-                    value = value.replace("[", "[[]").replace("\\*", "[*]")
-                    if fnmatch.fnmatch(variable, value):
+                    # Only * is a wildcard, \* is a literal * and \\ a literal \, every
+                    # other character (including ? and [) is matched literally.
+                    pattern = "".join(
+                        ".*" if token == "*" else re.escape(token[-1])
+                        for token in re.findall(r"\\[*\\]|.", value, re.DOTALL)
+                    )
+                    if (isinstance(variable, str) and
+                        re.fullmatch(pattern, variable, re.DOTALL)):
                         return next
 
                 def asl_choice_TimestampEquals(value):
